@@ -14,6 +14,19 @@
 //     together (the model proves the verdict is shift invariant), incl. k = 2160
 //     and the top of the range
 //
+//
+// Ratio rows (kind = "ratio", the legacy-density RESOLUTION dimension): a tip carries
+// blocks-after-the-fork / slots-after-the-fork directly, at magnitudes from a few slots to
+// 10^8 and more, incl. equal ratios through different totals and unequal ratios that are
+// arbitrarily close.  They are realised twice: as SimpleChainTips carrying c*blocks / c*span
+// (c a per-world constant, not only powers of two: a correctly rounded quotient only depends
+// on the real quotient), and as WindowedChainTips under a selector without a window, with
+// `blocks` block slots after the fork slot F, the last one at F + m*span (m a per-world
+// constant: multiplying every span by m preserves the order of the ratios), the others
+// spread at random in between, plus blocks at and before F that must not count.  All
+// products stay below 2^53, so float64 conversion is exact, the division is monotone and
+// distinct ratios (cross products < 2^52) stay distinct: the exact order is observable.
+//
 // Every expected verdict is read from the row.
 package main
 
@@ -60,6 +73,7 @@ func (t *tipRow) UnmarshalJSON(b []byte) error {
 }
 
 type pairRow struct {
+	Kind string `json:"kind"` // "slots" (default) or "ratio"
 	Ctx  []int  `json:"ctx"` // fb, tb, k, fs, w
 	Deep bool   `json:"deep"`
 	A    tipRow `json:"a"`
@@ -71,6 +85,7 @@ type pairRow struct {
 	Frag int    `json:"frag"`
 }
 type tripleRow struct {
+	Kind string   `json:"kind"`
 	Ctx  []int    `json:"ctx"`
 	Deep bool     `json:"deep"`
 	T    []tipRow `json:"t"`
@@ -101,6 +116,23 @@ type world struct {
 	sMul   uint64
 	depth  func(fb, tb, k int) (uint64, uint64, uint64)
 	dScale uint64 // SimpleChainTip legacy numbers are multiplied by this power of two
+	// ratio rows
+	rScale uint64 // SimpleChainTip: blocks and span are both multiplied by this
+	rMul   uint64 // WindowedChainTip: every span is multiplied by this
+	rBase  uint64 // WindowedChainTip: fork slot = rBase + fs (set by setRatioBase)
+	rTop   bool   // the longest span ends at slot 2^64-1
+}
+
+// setRatioBase fixes the fork slots of the ratio rows once the longest span is known.
+func (w *world) setRatioBase(maxSpan uint64, maxFs int) {
+	switch {
+	case w.rTop:
+		w.rBase = maxU - w.rMul*maxSpan - uint64(maxFs)
+	case w.name == "edge":
+		w.rBase = 1<<63 - 2 // the spans cross 2^63
+	default:
+		w.rBase = w.sBase
+	}
 }
 
 func sortedBytes(rng *rand.Rand, n, length int) [][]byte {
@@ -130,7 +162,7 @@ func worlds(seed int64, thorough bool, maxSlot int) []*world {
 	ws = append(ws, &world{
 		name: "small", bn: [3]uint64{0, 1, 2},
 		vrf:   [3][]byte{{0}, {1}, {2}},
-		noVRF: nil, sBase: 0, sMul: 1, dScale: 1,
+		noVRF: nil, sBase: 0, sMul: 1, dScale: 1, rScale: 1, rMul: 1,
 		depth: func(fb, tb, k int) (uint64, uint64, uint64) { return uint64(fb), uint64(tb), uint64(k) },
 	})
 	// 2. top of the ranges: bn extremes, VRF extremes (64 bytes), slots ending at 2^64-1,
@@ -142,6 +174,7 @@ func worlds(seed int64, thorough bool, maxSlot int) []*world {
 		name: "top", bn: [3]uint64{0, 1 << 63, maxU},
 		vrf:   [3][]byte{bytes.Repeat([]byte{0x00}, 64), mid, bytes.Repeat([]byte{0xff}, 64)},
 		noVRF: []byte{}, sBase: maxU - uint64(maxSlot), sMul: 1, dScale: 1 << 20, // the last model slot is 2^64-1
+		rScale: 1 << 20, rMul: 1, rTop: true,
 		depth: func(fb, tb, k int) (uint64, uint64, uint64) {
 			sh := maxU - 3 // abstract block numbers are 0..3
 			return uint64(fb) + sh, uint64(tb) + sh, uint64(k)
@@ -158,7 +191,7 @@ func worlds(seed int64, thorough bool, maxSlot int) []*world {
 	ws = append(ws, &world{
 		name: "mainnet", bn: [3]uint64{b[0], b[1], b[2]},
 		vrf:   [3][]byte{v32[0], v32[1], v32[2]},
-		noVRF: nil, sBase: 100_000_000, sMul: 20, dScale: 4,
+		noVRF: nil, sBase: 100_000_000, sMul: 20, dScale: 4, rScale: 3, rMul: 20,
 		depth: func(fb, tb, k int) (uint64, uint64, uint64) {
 			const y = 2160 // tb and k shifted together, then all shifted by 10^7
 			tbb := uint64(tb) + y
@@ -176,7 +209,7 @@ func worlds(seed int64, thorough bool, maxSlot int) []*world {
 		ws = append(ws, &world{
 			name: "edge", bn: [3]uint64{1<<63 - 1, 1 << 63, 1<<63 + 1},
 			vrf:   [3][]byte{mk(0x00), mk(0x80), mk(0xff)},
-			noVRF: []byte{}, sBase: 1<<63 - 2, sMul: 1, dScale: 1 << 40,
+			noVRF: []byte{}, sBase: 1<<63 - 2, sMul: 1, dScale: 1 << 40, rScale: 7919, rMul: 3,
 			depth: func(fb, tb, k int) (uint64, uint64, uint64) {
 				sh := uint64(1<<63 - 1)
 				return uint64(fb) + sh, uint64(tb) + sh, uint64(k)
@@ -186,7 +219,7 @@ func worlds(seed int64, thorough bool, maxSlot int) []*world {
 		ws = append(ws, &world{
 			name: "hugek", bn: [3]uint64{7, 8, 9},
 			vrf:   [3][]byte{{0x00, 0x01}, {0x01, 0x00}, {0xff, 0xff}},
-			noVRF: nil, sBase: 1 << 32, sMul: 1 << 16, dScale: 2,
+			noVRF: nil, sBase: 1 << 32, sMul: 1 << 16, dScale: 2, rScale: 1 << 22, rMul: 1 << 20,
 			depth: func(fb, tb, k int) (uint64, uint64, uint64) {
 				if tb <= fb {
 					return uint64(fb), uint64(tb), maxU
@@ -222,9 +255,53 @@ func (w *world) windowed(t tipRow, rng *rand.Rand) *consensus.WindowedChainTip {
 }
 
 // simple builds a SimpleChainTip carrying the model's legacy density numbers.
-func (w *world) simple(t tipRow, dens []int) *consensus.SimpleChainTip {
+func (w *world) simple(kind string, t tipRow, dens []int) *consensus.SimpleChainTip {
+	sc := w.dScale
+	if kind == "ratio" {
+		sc = w.rScale
+	}
 	return consensus.NewSimpleChainTipWithDensity(w.slot(1), w.bn[t.BN], w.vrfOf(t.VRF),
-		uint64(dens[1])*w.dScale, uint64(dens[2])*w.dScale)
+		uint64(dens[1])*sc, uint64(dens[2])*sc)
+}
+
+// ratioSlots returns the block slots of a chain with `blocks` blocks after the fork slot, the last
+// one span*rMul slots after it, and blocks at / before the fork slot that do not count.
+func (w *world) ratioSlots(forkSlot uint64, blocks, span int, rng *rand.Rand) []uint64 {
+	slots := []uint64{forkSlot} // the fork block itself
+	for i, n := 0, rng.Intn(3); i < n && forkSlot > 0; i++ {
+		slots = append(slots, forkSlot-1-uint64(rng.Int63n(int64(min(forkSlot, 1<<40)))))
+	}
+	if blocks > 0 {
+		last := w.rMul * uint64(span)
+		used := map[uint64]bool{last: true}
+		slots = append(slots, forkSlot+last)
+		for len(used) < blocks { // blocks <= span: there is room
+			o := 1 + uint64(rng.Int63n(int64(last)))
+			if !used[o] {
+				used[o] = true
+				slots = append(slots, forkSlot+o)
+			}
+		}
+	}
+	rng.Shuffle(len(slots), func(i, j int) { slots[i], slots[j] = slots[j], slots[i] })
+	return slots
+}
+
+func (w *world) windowedRatio(t tipRow, dens []int, forkSlot uint64, rng *rand.Rand) *consensus.WindowedChainTip {
+	slots := w.ratioSlots(forkSlot, dens[1], dens[2], rng)
+	tipSlot := forkSlot
+	for _, s := range slots {
+		tipSlot = max(tipSlot, s)
+	}
+	return consensus.NewWindowedChainTip(tipSlot, w.bn[t.BN], w.vrfOf(t.VRF), slots)
+}
+
+// tip builds the WindowedChainTip of a row's tip.
+func (r *runner) tip(kind string, t tipRow, dens []int, cc cctx, rng *rand.Rand) *consensus.WindowedChainTip {
+	if kind == "ratio" {
+		return r.w.windowedRatio(t, dens, cc.fork.Slot, rng)
+	}
+	return r.w.windowed(t, rng)
 }
 
 type fragment struct {
@@ -264,6 +341,25 @@ func fmtTip(t tipRow) string {
 	return fmt.Sprintf("%d/%s/{%s}", t.BN, v, strings.Join(s, ","))
 }
 
+// fmtTipK: ratio tips are named bn/vrf/<blocks>per<span>
+func fmtTipK(kind string, t tipRow, dens []int) string {
+	if kind != "ratio" {
+		return fmtTip(t)
+	}
+	v := fmt.Sprint(t.VRF)
+	if t.VRF < 0 {
+		v = "none"
+	}
+	return fmt.Sprintf("%d/%s/%dper%d", t.BN, v, dens[1], dens[2])
+}
+
+func kindPrefix(kind string) string {
+	if kind == "ratio" {
+		return "ratio:"
+	}
+	return ""
+}
+
 func fmtCtx(c []int) string {
 	return fmt.Sprintf("fb=%d,tb=%d,k=%d,fs=%d,w=%d", c[0], c[1], c[2], c[3], c[4])
 }
@@ -297,12 +393,16 @@ type cctx struct {
 	tb, k, win uint64
 }
 
-func (r *runner) concrete(c []int) cctx {
+func (r *runner) concrete(kind string, c []int) cctx {
 	fb, tb, k := r.w.depth(c[0], c[1], c[2])
 	win := r.w.sMul * uint64(c[4])
+	forkSlot := r.w.slot(c[3])
+	if kind == "ratio" {
+		forkSlot = r.w.rBase + uint64(c[3])
+	}
 	return cctx{
 		sel:  consensus.NewPraosChainSelectorWithWindow(k, win),
-		fork: consensus.ForkPoint{Slot: r.w.slot(c[3]), BlockNumber: fb},
+		fork: consensus.ForkPoint{Slot: forkSlot, BlockNumber: fb},
 		tb:   tb, k: k, win: win,
 	}
 }
@@ -320,7 +420,13 @@ func (r *runner) replayInfo(c []int, cc cctx, extra map[string]any) map[string]a
 	return out
 }
 
-func (r *runner) tipInfo(t tipRow) map[string]any {
+func (r *runner) tipInfo(kind string, t tipRow, dens []int) map[string]any {
+	if kind == "ratio" {
+		return map[string]any{"model": fmtTipK(kind, t, dens), "blockNumber": fmt.Sprint(r.w.bn[t.BN]),
+			"vrf": fmt.Sprintf("%x", r.w.vrfOf(t.VRF)),
+			"simple": map[string]any{"blocksAfterFork": fmt.Sprint(uint64(dens[1]) * r.w.rScale), "slotsAfterFork": fmt.Sprint(uint64(dens[2]) * r.w.rScale)},
+			"windowed": map[string]any{"blocksAfterForkSlot": dens[1], "lastBlockSlotMinusForkSlot": fmt.Sprint(uint64(dens[2]) * r.w.rMul)}}
+	}
 	slots := make([]string, len(t.Slots))
 	for i, s := range t.Slots {
 		slots[i] = fmt.Sprint(r.w.slot(s))
@@ -330,13 +436,14 @@ func (r *runner) tipInfo(t tipRow) map[string]any {
 }
 
 func (r *runner) pair(p pairRow, rng *rand.Rand) {
-	base := fmt.Sprintf("%s:a=%s:b=%s:world=%s", fmtCtx(p.Ctx), fmtTip(p.A), fmtTip(p.B), r.w.name)
-	cc := r.concrete(p.Ctx)
-	rp := r.replayInfo(p.Ctx, cc, map[string]any{"a": r.tipInfo(p.A), "b": r.tipInfo(p.B),
+	na, nb := fmtTipK(p.Kind, p.A, p.DA), fmtTipK(p.Kind, p.B, p.DB)
+	base := fmt.Sprintf("%s%s:a=%s:b=%s:world=%s", kindPrefix(p.Kind), fmtCtx(p.Ctx), na, nb, r.w.name)
+	cc := r.concrete(p.Kind, p.Ctx)
+	rp := r.replayInfo(p.Ctx, cc, map[string]any{"a": r.tipInfo(p.Kind, p.A, p.DA), "b": r.tipInfo(p.Kind, p.B, p.DB),
 		"model": map[string]any{"deep": p.Deep, "compare": p.Cmp, "compareWithDensity": p.Cwd, "da": p.DA, "db": p.DB}})
-	r.rep.Case(base, fmtTip(p.A) != fmtTip(p.B))
+	r.rep.Case(base, na != nb)
 	r.guard(base, rp, func() {
-		a, b := r.w.windowed(p.A, rng), r.w.windowed(p.B, rng)
+		a, b := r.tip(p.Kind, p.A, p.DA, cc, rng), r.tip(p.Kind, p.B, p.DB, cc, rng)
 		if got := sign(cc.sel.Compare(a, b)); got != p.Cmp {
 			r.rep.Disagree(base+":op=compare", fmt.Sprintf("Compare(a,b) = %d, model %d", got, p.Cmp), rp)
 		}
@@ -367,7 +474,7 @@ func (r *runner) pair(p pairRow, rng *rand.Rand) {
 		}
 		// legacy density rows: the same verdict with tips that carry only the ratio
 		if p.Ctx[4] == 0 {
-			sa, sb := r.w.simple(p.A, p.DA), r.w.simple(p.B, p.DB)
+			sa, sb := r.w.simple(p.Kind, p.A, p.DA), r.w.simple(p.Kind, p.B, p.DB)
 			for _, win := range []uint64{0, 5 * r.w.sMul} {
 				sel := consensus.NewPraosChainSelectorWithWindow(cc.k, win)
 				if got := sign(sel.CompareWithDensity(sa, sb, cc.fork, cc.tb)); got != p.Cwd {
@@ -394,9 +501,10 @@ func (r *runner) pair(p pairRow, rng *rand.Rand) {
 var perms3 = [][3]int{{0, 1, 2}, {0, 2, 1}, {1, 0, 2}, {1, 2, 0}, {2, 0, 1}, {2, 1, 0}}
 
 func (r *runner) triple(t tripleRow, rng *rand.Rand) {
-	base := fmt.Sprintf("%s:t1=%s:t2=%s:t3=%s:world=%s", fmtCtx(t.Ctx), fmtTip(t.T[0]), fmtTip(t.T[1]), fmtTip(t.T[2]), r.w.name)
-	cc := r.concrete(t.Ctx)
-	rp := r.replayInfo(t.Ctx, cc, map[string]any{"t1": r.tipInfo(t.T[0]), "t2": r.tipInfo(t.T[1]), "t3": r.tipInfo(t.T[2]),
+	base := fmt.Sprintf("%s%s:t1=%s:t2=%s:t3=%s:world=%s", kindPrefix(t.Kind), fmtCtx(t.Ctx),
+		fmtTipK(t.Kind, t.T[0], t.Dens[0]), fmtTipK(t.Kind, t.T[1], t.Dens[1]), fmtTipK(t.Kind, t.T[2], t.Dens[2]), r.w.name)
+	cc := r.concrete(t.Kind, t.Ctx)
+	rp := r.replayInfo(t.Ctx, cc, map[string]any{"t1": r.tipInfo(t.Kind, t.T[0], t.Dens[0]), "t2": r.tipInfo(t.Kind, t.T[1], t.Dens[1]), "t3": r.tipInfo(t.Kind, t.T[2], t.Dens[2]),
 		"model": map[string]any{"deep": t.Deep, "maximal_praos": t.Max, "maximal_density": t.MaxD, "cwd_12_23_13": []int{t.Cab, t.Cbd, t.Cad}}})
 	r.rep.Case(base, len(t.Max) < 3 || len(t.MaxD) < 3)
 	r.guard(base, rp, func() {
@@ -408,9 +516,9 @@ func (r *runner) triple(t tripleRow, rng *rand.Rand) {
 			tips := make([]consensus.ChainTip, 3)
 			for i := range tips {
 				if kind == "windowed" {
-					tips[i] = r.w.windowed(t.T[i], rng)
+					tips[i] = r.tip(t.Kind, t.T[i], t.Dens[i], cc, rng)
 				} else {
-					tips[i] = r.w.simple(t.T[i], t.Dens[i])
+					tips[i] = r.w.simple(t.Kind, t.T[i], t.Dens[i])
 				}
 			}
 			idx := func(x consensus.ChainTip) int {
@@ -516,7 +624,57 @@ func main() {
 			}
 		}
 	}
+	// ratio rows: the longest span and the largest fork slot fix where the worlds put the fork slot
+	maxSpan, maxFs, ratioRows := uint64(1), 0, 0
+	nearest := map[string]int{} // ratio pair rows by the distance of two unequal densities
+	noteRatio := func(kind string, ctx []int, dens ...[]int) {
+		if kind != "ratio" {
+			return
+		}
+		ratioRows++
+		maxFs = max(maxFs, ctx[3])
+		for _, d := range dens {
+			maxSpan = max(maxSpan, uint64(d[2]))
+		}
+	}
+	for _, p := range pairs {
+		noteRatio(p.Kind, p.Ctx, p.DA, p.DB)
+		if p.Kind == "ratio" && p.DA[1] > 0 && p.DB[1] > 0 {
+			// bookkeeping for the evidence only (exact integer cross product, no verdict is derived from it)
+			cross := int64(p.DA[1])*int64(p.DB[2]) - int64(p.DB[1])*int64(p.DA[2])
+			if cross < 0 {
+				cross = -cross
+			}
+			diff := float64(cross) / (float64(p.DA[2]) * float64(p.DB[2]))
+			switch {
+			case cross == 0 && (p.DA[1] != p.DB[1]):
+				nearest["equal_ratio_different_totals"]++
+			case cross == 0:
+			case diff < 1e-15:
+				nearest["unequal_distance_below_1e-15"]++
+			case diff < 1e-12:
+				nearest["unequal_distance_1e-15_to_1e-12"]++
+			case diff < 1e-9:
+				nearest["unequal_distance_1e-12_to_1e-9"]++
+			case diff < 1e-6:
+				nearest["unequal_distance_1e-9_to_1e-6"]++
+			case diff < 1e-3:
+				nearest["unequal_distance_1e-6_to_1e-3"]++
+			default:
+				nearest["unequal_distance_1e-3_or_more"]++
+			}
+		}
+	}
+	for _, t := range triples {
+		noteRatio(t.Kind, t.Ctx, t.Dens...)
+	}
 	ws := worlds(seed, vh.Tier() == "thorough", maxSlot)
+	for _, w := range ws {
+		w.setRatioBase(maxSpan, maxFs)
+		if ratioRows > 0 && (w.rMul*maxSpan >= 1<<53 || w.rScale*maxSpan >= 1<<53) {
+			rep.Dead("world %s: ratio spans up to %d leave the exact float64 range", w.name, maxSpan)
+		}
+	}
 	for wi, w := range ws {
 		r := &runner{rep: rep, w: w}
 		for _, d := range deeps {
@@ -541,6 +699,15 @@ func main() {
 			break
 		}
 	}
+	// a deep ratio pair: sparse chains whose densities differ by less than 1e-9, decided by density
+	// against the longer chain
+	for _, p := range pairs {
+		if p.Kind == "ratio" && p.Deep && p.Cmp != 0 && p.Cwd == -p.Cmp && p.DA[2] > 100_000 && p.DB[2] > 100_000 && p.DA[2] != p.DB[2] {
+			rep.Sample(map[string]any{"kind": "ratio pair", "ctx": fmtCtx(p.Ctx), "deep": p.Deep,
+				"a": fmtTipK(p.Kind, p.A, p.DA), "b": fmtTipK(p.Kind, p.B, p.DB), "compare": p.Cmp, "compareWithDensity": p.Cwd})
+			break
+		}
+	}
 	for _, p := range pairs {
 		if !p.Deep && p.Cmp != 0 && p.DA[0] != p.DB[0] && sign(p.DA[0]-p.DB[0]) == -p.Cmp {
 			pairSample(p)
@@ -550,7 +717,7 @@ func main() {
 	for _, t := range triples {
 		if len(t.Max) == 1 && len(t.MaxD) == 1 && t.Max[0] != t.MaxD[0] {
 			rep.Sample(map[string]any{"kind": "triple", "ctx": fmtCtx(t.Ctx), "deep": t.Deep,
-				"tips": []string{fmtTip(t.T[0]), fmtTip(t.T[1]), fmtTip(t.T[2])}, "maximal_praos": t.Max, "maximal_density": t.MaxD})
+				"tips": []string{fmtTipK(t.Kind, t.T[0], t.Dens[0]), fmtTipK(t.Kind, t.T[1], t.Dens[1]), fmtTipK(t.Kind, t.T[2], t.Dens[2])}, "maximal_praos": t.Max, "maximal_density": t.MaxD})
 			break
 		}
 	}
@@ -559,6 +726,17 @@ func main() {
 		names[i] = w.name
 	}
 	rep.Extra["c41_worlds"] = names
+	if ratioRows > 0 {
+		what := "triples"
+		if len(pairs) > 0 {
+			what = "pairs"
+		}
+		rep.Extra["c41_ratio_"+what+"_rows"] = ratioRows
+		rep.Extra["c41_ratio_"+what+"_longest_span"] = maxSpan
+		if len(nearest) > 0 {
+			rep.Extra["c41_ratio_pair_rows_by_density_distance"] = nearest
+		}
+	}
 	rep.Extra["c41_not_replayed"] = "candidate sets mixing tips with and without a window counter (outside the property's domain: the fallback compares different metrics)"
 	rep.Finish()
 }
